@@ -397,6 +397,9 @@ def http_bodies(ctx):
     return out
 
 
+JSON_STATS = {}
+
+
 def build_C06_http(ctx, tier, rnd):
     """returns [(name, impl_ops, model_ops, refused_indices)]"""
     al = gen.Alphabet(ctx)
@@ -430,6 +433,33 @@ def build_C06_http(ctx, tier, rnd):
         if tier == 'thorough' or n in ('min', 'navail', 'rb1', 'avail_str', 'num_str', 'trailing', 'dup_key'):
             mc = 'op check - err' if m == 'err' else 'op check - %s' % m
             variants.append(('ckhb_' + n, ck2 + ' hb=@hb_' + n, mc, False))
+    # generated bodies: JSON trees (duplicates, missing / retyped / reordered / unknown fields, positional form, number
+    # tokens around the usize range); what the library should read from each is computed by the MODEL (Json.resp_of_json)
+    import jsongen
+    ntree = 120 if tier == 'quick' else 2500
+    gen_ = [jsongen.gen_resp(rnd, 2, p2['hash'], url_of(2), None) for _ in range(ntree)]
+    trees = [t for t, _ in gen_]
+    fk = collections.Counter(f for _, fs in gen_ for f in fs)
+    jf = os.path.join(ctx.tmp, 'trees.ops')
+    open(jf, 'w').write(''.join('json t%d %s\n' % (i, ','.join(jsongen.enc(t))) for i, t in enumerate(trees)))
+    jr = subprocess.run([DRIVER, jf], capture_output=True, text=True)
+    reading = dict(l[5:].split('=', 1) for l in jr.stdout.splitlines() if l.startswith('json:'))
+    JSON_STATS.clear()
+    JSON_STATS.update({'fault_' + k: v for k, v in fk.items()})
+    JSON_STATS.update(trees=len(trees), model_failed=0 if len(reading) == len(trees) else 1, read_ok=0, read_err=0, skipped_foreign_url=0)
+    for i, t in enumerate(trees):
+        m = reading.get('t%d' % i)
+        if m is None:
+            continue
+        if m != 'err' and ' p=-' not in m and (':%s:' % hx(url_of(2))) not in m:
+            JSON_STATS['skipped_foreign_url'] += 1     # a string that is not a served URL landed in download_url: the download outcome is not scripted
+            continue
+        JSON_STATS['read_ok' if m != 'err' else 'read_err'] += 1
+        ctx.add_blob('hj_%d' % i, jsongen.text(t).encode('utf-8'))
+        mo = 'op update - err @%s' % p2['dl'] if m == 'err' else 'op update - %s @%s' % (m, p2['dl'])
+        variants.append(('hj_%d' % i, u2 + ' hb=@hj_%d' % i, mo, False))
+        if i % 4 == 0:
+            variants.append(('ckhj_%d' % i, ck2 + ' hb=@hj_%d' % i, 'op check - err' if m == 'err' else 'op check - %s' % m, False))
     prekeys = ('empty', 'good1', 'good1boot2') if tier == 'quick' else ('empty', 'pend1', 'boot1', 'good1', 'good1pend2', 'good1boot2', 'good1bad2', 'good2pend1')
     hs = []
     for pk in prekeys:
@@ -489,6 +519,9 @@ def run_C06(pid, tier, seed, model_ok=True):
         a['distinct'] += len(hs)
         a['traces'] = a.get('traces', 0) + len(impl)
         a['dist'] = dict(a.get('dist', {}), **{'http_' + k: v for k, v in kinds.items()})
+        a['dist'].update({'json_' + k: v for k, v in JSON_STATS.items()})
+        if JSON_STATS.get('model_failed'):
+            a['extras'].append('json: the model driver did not answer for every generated tree')
         if hs:
             a['samples'].append({'history': hs[0][0], 'ops': hs[0][1][:12]})
         return a
